@@ -72,6 +72,7 @@ type Ctx struct {
 	roles    map[*types.Func]string
 	gmodel   *grammarModel
 	fmodel   *fusionModel
+	sguard   *semiGuard
 }
 
 func shortPkg(path string) string {
